@@ -358,7 +358,7 @@ class PointAnalysis:
         if key in self._param:
             return self._param[key]
         if key in self._busy:
-            return ALL_TAGS
+            return EMPTY  # recursive call chain: assume nothing
         self._busy.add(key)
         acc = None
         for caller, call in self.prog.callers_of(fn):
@@ -380,9 +380,11 @@ class PointAnalysis:
         if key in self._param:
             return self._param[key]
         if key in self._busy:
-            return ALL_TAGS
+            return EMPTY  # recursion: assume nothing
         self._busy.add(key)
-        fl = self.flow(fn)
+        # the summary must not depend on the callers (else a cycle through the memoised
+        # caller flows would freeze an optimistic value): parameters carry no tags here
+        fl = TagFlow(self.prog, fn, PointPolicy(self, fn, seed_params=False))
         acc = None
         for node in ast.walk(fn.node):
             if isinstance(node, ast.Return) and node.value is not None and self.prog.function_of(node) is fn and not isinstance(node.value, ast.Tuple):
@@ -468,11 +470,13 @@ class PointAnalysis:
 
 
 class PointPolicy(BasePolicy):
-    def __init__(self, pa: PointAnalysis, fn):
-        self.pa, self.fn = pa, fn
+    def __init__(self, pa: PointAnalysis, fn, seed_params: bool = True):
+        self.pa, self.fn, self.seed_params = pa, fn, seed_params
 
     def initial(self, flow):
         st = {}
+        if not self.seed_params:
+            return st
         for p in self.fn.params:
             if p == "self":
                 continue
